@@ -118,6 +118,19 @@ pub fn run(a: &Args) -> Report {
             },
             other => fixed.violation("C01/decode-own-output-fails", format!("{:?}", other.map(|x| x.map(|_| ()).map_err(|e| e.to_string()))), case()),
         }
+        // the same bytes through inputs that cannot tell how much is left (streaming readers), and with a depth limit
+        let big_bytes = big.encode();
+        for (what, res) in [("stream", guard(|| PortableRegistry::decode(&mut scale::IoReader(&big_bytes[..])))), ("chunked-stream", guard(|| PortableRegistry::decode(&mut scale::IoReader(Dribble(&big_bytes[..]))))),
+                            ("depth-limit", guard(|| <PortableRegistry as scale::DecodeLimit>::decode_with_depth_limit(64, &mut &big_bytes[..])))] {
+            match res {
+                Ok(Ok(d)) => match wf::check(&d, true) {
+                    Ok(_) if d.types.len() == n => fixed.count("large_registry_decoded_stream", 1),
+                    Ok(_) => fixed.violation("C01/decoded-not-well-formed", format!("a registry of {} entries decodes ({} input) to {} entries", n, what, d.types.len()), case()),
+                    Err(e) => fixed.violation("C01/decoded-not-well-formed", format!("{} input: {}", what, e), case()),
+                },
+                other => fixed.violation("C01/decode-own-output-fails", format!("{} input: {:?}", what, other.map(|x| x.map(|_| ()).map_err(|e| e.to_string()))), case()),
+            }
+        }
         match guard(|| serde_json::from_str::<PortableRegistry>(&serde_json::to_string(&big).unwrap())) {
             Ok(Ok(d)) => match wf::check(&d, true) {
                 Ok(_) if d.types.len() == n => fixed.count("large_registry_json", 1),
@@ -142,6 +155,65 @@ pub fn run(a: &Args) -> Report {
             Err(e) => fixed.violation("C01/builder-not-dense", e, case()),
         }
         fixed.eval(Some(hash_bytes(&refcodec::encode(&big))));
+    }
+    if prop == "C10" && cfg.first_case == 0 {
+        // Long histories on ONE thread: whatever retain keeps between calls (scratch tables, counters, stamps) must not leak
+        // into a later call. Probed at the periods where 8- and 16-bit counters come round: a large registry is processed,
+        // then exactly P-1 small ones, then the large one again, for P in 255, 256, 65535, 65536.
+        let mut rng = Rng::derive(seed ^ 0x9e71, 0);
+        let large = loop {
+            let r = reggen::gen_registry(&mut rng, &Cfg { mode: Mode::WellFormed, max_types: 60, mid: false, big: false });
+            if r.types.len() >= 30 {
+                break r;
+            }
+        };
+        let small: Vec<PortableRegistry> = (0..4).map(|_| loop {
+            let r = reggen::gen_registry(&mut rng, &Cfg::small(Mode::WellFormed));
+            if !r.types.is_empty() && r.types.len() <= 6 {
+                break r;
+            }
+        }).collect();
+        let all_large: Vec<u32> = (0..large.types.len() as u32).collect();
+        let mut calls = 0u64;
+        let run_one = |reg: &PortableRegistry, accepted: &[u32], fixed: &mut Report, calls: &mut u64, what: &str| -> bool {
+            let mut after = reg.clone();
+            *calls += 1;
+            let case = || json!({"same_thread_history": true, "call_number": *calls, "step": what, "n_types": reg.types.len(), "accepted": accepted.iter().take(32).collect::<Vec<_>>()});
+            match guard(|| after.retain(|id| accepted.contains(&id))) {
+                Ok(map) => {
+                    if let Err(e) = refretain::check(reg, accepted, &after, &map) {
+                        let k = if e.starts_with("result not well-formed") { "C10/ill-formed-result" } else if e.starts_with("map keys differ") { "C10/wrong-key-set" } else if e.starts_with("retained entry") { "C10/entry-not-renamed-original" } else { "C10/map-not-bijection" };
+                        fixed.violation(k, format!("call number {} to retain on this thread ({}): {}", *calls, what, e), case());
+                        return false;
+                    }
+                    true
+                }
+                Err(p) => {
+                    fixed.violation("C10/panic", format!("call number {} to retain on this thread ({}) panicked: {}", *calls, what, p), case());
+                    false
+                }
+            }
+        };
+        'periods: for period in [255u64, 256, 65_535, 65_536] {
+            if !run_one(&large, &all_large, &mut fixed, &mut calls, "large registry, everything accepted") {
+                break;
+            }
+            for k in 0..period - 1 {
+                let r = &small[(k % 4) as usize];
+                let acc: Vec<u32> = if k % 3 == 0 { vec![0] } else { (0..r.types.len() as u32).collect() };
+                if !run_one(r, &acc, &mut fixed, &mut calls, "small registry in between") {
+                    break 'periods;
+                }
+            }
+            // exactly `period` calls after its ids were last touched
+            let last = vec![large.types.len() as u32 - 1, (large.types.len() / 2) as u32];
+            if !run_one(&large, &last, &mut fixed, &mut calls, "large registry again, two ids accepted") || !run_one(&large, &all_large, &mut fixed, &mut calls, "large registry again, everything accepted") {
+                break;
+            }
+            fixed.count("same_thread_period_probes", 1);
+        }
+        fixed.count("same_thread_history_calls", calls);
+        fixed.eval(None);
     }
     let mut body = run_parallel(&cfg, |i, rep| {
         let mut rng = Rng::derive(seed ^ 0x10, i);
@@ -251,4 +323,16 @@ pub fn run(a: &Args) -> Report {
     });
     body.merge(fixed);
     body
+}
+
+/// A reader that hands out at most three bytes per call (and cannot tell how much is left).
+struct Dribble<'a>(&'a [u8]);
+
+impl<'a> std::io::Read for Dribble<'a> {
+    fn read(&mut self, buf: &mut [u8]) -> std::io::Result<usize> {
+        let n = buf.len().min(3).min(self.0.len());
+        buf[..n].copy_from_slice(&self.0[..n]);
+        self.0 = &self.0[n..];
+        Ok(n)
+    }
 }
